@@ -117,6 +117,18 @@ def tmpl_extra_deps(p, f, i):
              ['xs%d.c' % i] + (['dep%d.txt' % i] if f else []), [] if f else ['dep%d.txt' % i])
 
 
+def tmpl_extra_deps_plain(p, f, i):
+    """extra_deps given as Path objects, no file-object builtin involved (plain strings are resolved
+    against the top source directory even inside submodules: C19's known finding)"""
+    return T(["executable('xp%d', [%s], extra_deps=[relpath('depstr%d.txt'), relpath('deppath%d.map')], "
+              "extra_compile_deps=[relpath('cdep%d.inc')])"
+              % (i, "source_file('xq%d.c'%s)" % (i, d(f)), i, i, i)],
+             {'xq%d.c' % i: 'int main(){}\n', 'depstr%d.txt' % i: 'd\n', 'deppath%d.map' % i: 'm\n',
+              'cdep%d.inc' % i: 'c\n'},
+             (['xq%d.c' % i] if f else []) + ['depstr%d.txt' % i, 'deppath%d.map' % i, 'cdep%d.inc' % i],
+             [] if f else ['xq%d.c' % i])
+
+
 def tmpl_prebuilt(p, f, i):
     return T(["pre%d = static_library('pre%d/libx.a'%s)" % (i, i, d(f)),
               "executable('pb%d', ['ps%d.c'], libs=[pre%d])" % (i, i, i)],
@@ -145,7 +157,7 @@ TEMPLATES = [('exe', tmpl_exe), ('plain-string-sources', tmpl_plain_strings), ('
              ('find_platform', tmpl_find_platform), ('find_nocache', tmpl_find_nocache),
              ('extra_dist', tmpl_extra_dist), ('man_page', tmpl_man),
              ('copy_file', tmpl_copy), ('build_step-cmd-file', tmpl_step), ('build_step-files', tmpl_step_files),
-             ('extra_deps', tmpl_extra_deps), ('prebuilt_library', tmpl_prebuilt), ('directory', tmpl_directory)]
+             ('extra_deps', tmpl_extra_deps), ('extra_deps-plain', tmpl_extra_deps_plain), ('prebuilt_library', tmpl_prebuilt), ('directory', tmpl_directory)]
 TD = dict(TEMPLATES)
 PLACES = ['', 'sub', 'sub/deep']
 
